@@ -155,6 +155,33 @@ func vScripts() []vScript {
 			dr.opObs(w.obsBy(40, d2, k2.TxHash[:]), "member")
 			dr.opObs(w.obsBy(41, d2, k2.TxHash[:]), "member")
 		}},
+		{"c01-peer-copy-never-replaces-a-stored-vaa", func(dr *vDriver, w *vWorld) {
+			mem := members(4, 1)
+			gs := w.set(mem, 2)
+			dr.opClock(1000)
+			dr.opSetGS(gs)
+			k := w.msg(0)
+			d := digestOfMsg(k, 0)
+			// locally assembled from signers 0,1(own),2
+			dr.opMsg(k)
+			dr.opObs(w.obsBy(mem[0], d, k.TxHash[:]), "member")
+			dr.opLoop(0)
+			dr.opObs(w.obsBy(mem[2], d, k.TxHash[:]), "member")
+			// a peer's valid copy with another signer subset (different bytes, same id), then one with another body under the same id
+			dr.opInbound(w.signedVAA(k, gs, mem, []int{0, 2, 3}), "valid-other-signers")
+			k2 := *k
+			k2.Payload = append([]byte{9}, w.r.bytes(12)...)
+			dr.opInbound(w.signedVAA(&k2, gs, mem, []int{0, 1, 2, 3}), "same-id-other-body")
+			// and the reverse order for a second message: peer copy first, then the local quorum overwrites with its own assembly
+			k3 := w.msg(0)
+			d3 := digestOfMsg(k3, 0)
+			dr.opInbound(w.signedVAA(k3, gs, mem, []int{0, 2, 3}), "valid")
+			dr.opInbound(w.signedVAA(k3, gs, mem, []int{0, 1, 2, 3}), "valid-again")
+			dr.opMsg(k3)
+			dr.opLoop(0)
+			dr.opObs(w.obsBy(mem[0], d3, k3.TxHash[:]), "member")
+			dr.opObs(w.obsBy(mem[3], d3, k3.TxHash[:]), "member")
+		}},
 		{"c14-retry-schedule-of-a-pending-own-observation", func(dr *vDriver, w *vWorld) {
 			mem := members(3, 1)
 			dr.opClock(1000)
